@@ -80,6 +80,10 @@ class KeyUniverse:
                 if cut % 2 and nb < m and nb < n:
                     other[nb] = (base[nb] & 0xF0) | (other[nb] & 0x0F)
                 self.pool32.append(bytes(other))
+        if self.kind == "ladder":
+            # every key is a prefix of one long key: with many of them stored the trie is a
+            # ladder two nodes deep per byte - paths of far more than 64 nodes
+            self.ladder = bytes(rnd.randrange(256) for _ in range(rnd.choice([36, 40, 48])))
         if self.kind == "chain":
             self.chain_base = key_adv(rnd, 2)
 
@@ -94,6 +98,11 @@ class KeyUniverse:
             return rnd.choice(self.pool32)
         if k == "nibbly":
             return key_nibbly(rnd)
+        if k == "ladder":
+            n = rnd.randint(0, len(self.ladder))
+            if rnd.random() < 0.1:
+                return self.ladder[:n] + bytes([rnd.randrange(256)])
+            return self.ladder[:n]
         if k == "chain":
             out = self.chain_base
             for _ in range(rnd.randint(0, 3)):
